@@ -17,7 +17,7 @@ QFLAGS = "-Q ../base FlacBase -Q . FlacWriters"
 REQUIRES = ["FlacWriters.Writers", "FlacWriters.Lists_proofs", "FlacWriters.Params_proofs", "FlacWriters.Params_sweeps",
             "FlacWriters.Writers_proofs", "FlacWriters.New_proofs", "FlacWriters.Finalize_proofs", "FlacWriters.Encoder_proofs",
             "FlacWriters.Seek_proofs", "FlacWriters.Finish_proofs", "FlacWriters.Newok_proofs", "FlacWriters.C09_proofs", "FlacWriters.Run_proofs", "FlacWriters.Frontend_proofs", "FlacWriters.Bytes_proofs",
-            "FlacWriters.Safety_proofs", "FlacWriters.Audio_proofs",
+            "FlacWriters.Safety_proofs", "FlacWriters.Audio_proofs", "FlacWriters.Cross_proofs",
             "FlacWriters.Props_C08", "FlacWriters.Props_C15", "FlacWriters.Props_C09", "FlacWriters.Pins"]
 
 ASSUMPTIONS = [
